@@ -395,6 +395,8 @@ _APPLY = {
     "first": lambda vals: vals[0] if vals else None,
     "nn": lambda vals: sum(1 for v in vals if v is not None),
     "last": lambda vals: vals[-1] if vals else None,
+    # a callback that works in place on the list it is given (a typical median helper does)
+    "rev": lambda vals: (vals.reverse(), len(vals))[1],
 }
 
 
